@@ -403,3 +403,72 @@ Proof.
   transitivity (kappa * Q'iX * Q'jY * (sx * Sxy / (cx * cx))); [field; assumption|].
   rewrite HS. field. assumption.
 Qed.
+
+(* ===================================================================== *)
+(* Part E: the chain instantiated end to end on the direct paths L and T (one interface),
+   from the (sin, cos) layer of the interface model to the ray weights.                 *)
+Section DirectPaths.
+  Variables sf cf sl cl st ct rho_f rho_s v_f v_l v_t : R.
+  Hypothesis Hcf : 0 < cf. Hypothesis Hcl : 0 < cl. Hypothesis Hct : 0 < ct.
+  Hypothesis Hrf : 0 < rho_f. Hypothesis Hrs : 0 < rho_s.
+  Hypothesis Hvf : 0 < v_f. Hypothesis Hvl : 0 < v_l. Hypothesis Hvt : 0 < v_t.
+  Hypothesis Hsn : sl * v_t = st * v_l.
+  Hypothesis Hn : fluid_solid_n_sc NumR sf cf sl cl st ct rho_f rho_s v_f v_l v_t <> 0.
+  Variables r1 r2 D A f : R.
+  Hypothesis Hr1 : 0 < r1. Hypothesis Hr2 : 0 < r2. Hypothesis Hf : 0 < f.
+
+  Let FS := fluid_solid_sc NumR sf cf sl cl st ct rho_f rho_s v_f v_l v_t.
+  Let LF := solid_l_fluid_sc NumR sf cf sl cl st ct rho_f rho_s v_f v_l v_t.
+  Let TF := solid_t_fluid_sc NumR sf cf sl cl st ct rho_f rho_s v_f v_l v_t.
+  Let kappa := rho_f * v_f * sqrt (v_f * f) / rho_s.
+
+  (* path "L": legs r1 (couplant), r2 (block, L); gamma = v_f cl^2 / (v_l cf^2) *)
+  Lemma qratio_direct_L :
+    let g := v_f * (cl * cl) / (v_l * (cf * cf)) in
+    let Q  := D * (snd3 FS * ((rho_f * v_f) / (rho_s * v_l))) * (1 / sqrt (r1 + r2 / g)) * A in
+    let Q' := D * (thd3 LF * ((rho_s * v_l) / (rho_f * v_f))) * (1 / sqrt (r2 + r1 / (/ g))) * A * sqrt (v_l / f) in
+    Q * (v_l * v_l) * 1 = kappa * Q'.
+  Proof.
+    intros g Q Q'. unfold kappa.
+    assert (Hg : 0 < g) by (unfold g; apply Rdiv_lt_0_compat; repeat apply Rmult_lt_0_compat; assumption).
+    assert (Eg : g = v_f / v_l * (cl / cf * (cl / cf))) by (unfold g; field; lra).
+    unfold Q, Q'. clearbody g.
+    apply (qratio_combination D _ _ (r1 + r2 / g) (r2 + r1 / (/ g)) g A (v_l / f) v_f v_l rho_f rho_s f (cl / cf) 1);
+      try assumption; try lra.
+    - assert (0 < r2 / g) by (apply Rdiv_lt_0_compat; assumption). lra.
+    - apply Rdiv_lt_0_compat; assumption.
+    - field. lra.
+    - pose proof (ratio_front_L NumR NumR_field NumR_two sf cf sl cl st ct rho_f rho_s v_f v_l v_t
+                    (Rgt_not_eq _ _ Hcf) (Rgt_not_eq _ _ Hrf) (Rgt_not_eq _ _ Hrs) (Rgt_not_eq _ _ Hvf)
+                    (Rgt_not_eq _ _ Hvl) Hn) as E.
+      cbn [NumR nmul ndiv] in E. fold FS LF in E.
+      apply Rmult_eq_reg_r with cf; [|lra].
+      transitivity (snd3 FS * (rho_f * v_f / (rho_s * v_l)) * cl * (rho_s * v_l)); [field; lra|].
+      rewrite E. ring.
+  Qed.
+
+  (* path "T": legs r1 (couplant), r2 (block, T); sign -1 *)
+  Lemma qratio_direct_T :
+    let g := v_f * (ct * ct) / (v_t * (cf * cf)) in
+    let Q  := D * (thd3 FS * ((rho_f * v_f) / (rho_s * v_t))) * (1 / sqrt (r1 + r2 / g)) * A in
+    let Q' := D * (thd3 TF * ((rho_s * v_t) / (rho_f * v_f))) * (1 / sqrt (r2 + r1 / (/ g))) * A * sqrt (v_t / f) in
+    Q * (v_t * v_t) * (-1) = kappa * Q'.
+  Proof.
+    intros g Q Q'. unfold kappa.
+    assert (Hg : 0 < g) by (unfold g; apply Rdiv_lt_0_compat; repeat apply Rmult_lt_0_compat; assumption).
+    assert (Eg : g = v_f / v_t * (ct / cf * (ct / cf))) by (unfold g; field; lra).
+    unfold Q, Q'. clearbody g.
+    apply (qratio_combination D _ _ (r1 + r2 / g) (r2 + r1 / (/ g)) g A (v_t / f) v_f v_t rho_f rho_s f (ct / cf) (-1));
+      try assumption; try lra.
+    - assert (0 < r2 / g) by (apply Rdiv_lt_0_compat; assumption). lra.
+    - apply Rdiv_lt_0_compat; assumption.
+    - field. lra.
+    - pose proof (ratio_front_T NumR NumR_field NumR_two sf cf sl cl st ct rho_f rho_s v_f v_l v_t
+                    (Rgt_not_eq _ _ Hcf) (Rgt_not_eq _ _ Hrf) (Rgt_not_eq _ _ Hrs) (Rgt_not_eq _ _ Hvf)
+                    (Rgt_not_eq _ _ Hvl) (Rgt_not_eq _ _ Hvt) Hsn Hn) as E.
+      cbn [NumR nmul ndiv nopp n1] in E. fold FS TF in E.
+      apply Rmult_eq_reg_r with cf; [|lra].
+      transitivity (thd3 FS * (rho_f * v_f / (rho_s * v_t)) * ct * (rho_s * v_t)); [field; lra|].
+      rewrite E. ring.
+  Qed.
+End DirectPaths.
